@@ -56,8 +56,8 @@ func (m *MessageCopyFromGenerator) Generate(writer io.Writer) (int, error) {
 func (m *MessageCopyFromGenerator) GenerateFields(g *j.Group) {
 	// Reset all oneOf fields in advance, otherwise if all oneOf branches would be null in the passed
 	// object, the oneOf field won't be nil
-	for _, m := range m.OneOfNames {
-		g.Add(j.Id("obj." + m).Op("=").Nil())
+	for _, name := range m.oneOfHolders() {
+		g.Add(j.Id("obj." + name).Op("=").Nil())
 	}
 
 	// Reset nullable embedded messages for the same reason: a parent is allocated again by its first
@@ -76,6 +76,28 @@ func (m *MessageCopyFromGenerator) GenerateFields(g *j.Group) {
 
 		g.Add(NewFieldCopyFromGenerator(f, m.i).Generate())
 	}
+}
+
+// oneOfHolders returns the names of the oneOf fields which hold a branch of this message: the ones the message
+// declares itself and the ones which come with the fields of the messages embedded in it by value (they are promoted
+// to this message along with their branches).
+func (m *MessageCopyFromGenerator) oneOfHolders() []string {
+	names := append([]string{}, m.OneOfNames...)
+
+	known := make(map[string]bool, len(names))
+	for _, name := range names {
+		known[name] = true
+	}
+
+	for _, f := range m.Fields {
+		if f.OneOfName == "" || f.ParentIsOptionalEmbed || known[f.OneOfName] {
+			continue
+		}
+		known[f.OneOfName] = true
+		names = append(names, f.OneOfName)
+	}
+
+	return names
 }
 
 // resettableEmbeds returns field names of the nullable embedded messages all of whose fields are primitive
